@@ -11,6 +11,7 @@ static long K;
 enum { ST_NONE, ST_ACCEPTED, ST_CREATED, ST_CLOSED, ST_DESTROYED };
 #define MAXCONN 6
 static struct { qb_ipcs_connection_t *c; int st, destroyed, closed, created, after_destroy, is_victim; } CN[MAXCONN];
+static int closed_axis;
 static int ncn;
 static qb_ipcc_connection_t *CTRL, *VIC;
 static int victim_co, ctrl_co, victim_started, victim_finished, want_events, want_fc;
@@ -53,6 +54,13 @@ static int32_t s_closed(qb_ipcs_connection_t *c)
 	if (i < 0 || CN[i].st == ST_DESTROYED) vp_fail("closed callback for a destroyed/unknown connection");
 	if (!CN[i].created) vp_fail("closed callback although created was never reported for this connection");
 	CN[i].st = ST_CLOSED; CN[i].closed++;
+	/* the documented "call me again": the first call returns non-zero; the library asks the application's job_add
+	   handler to schedule the second call, and that handler may fail -- the connection has to go away all the same */
+	if (closed_axis && CN[i].closed == 1) {
+		if (closed_axis == 2) W_jobadd_fail_once = 1;
+		vp_log("  S: closed(conn %d) returns 1 (call me again)", i);
+		return 1;
+	}
 	vp_log("  S: closed(conn %d)", i);
 	return 0;
 }
@@ -315,6 +323,8 @@ static void run(void)
 	victim_is_server = mode == 1 || mode == 2 || mode == 4;
 	silent_server = mode == 2;
 	J = 0; eintr = 0;
+	closed_axis = 0; W_jobadd_fail_once = 0;
+	if (mode == 0) closed_axis = vp_choose(3, "closed callback: returns 0 / asks for a second call / asks and job_add fails");
 	if (mode == 0) { script = vp_choose(5, "session script"); if (script == 4) { raw_bytes = vp_choose(17 + 1, "handshake bytes delivered"); K = 1000; } else K = 1 + vp_choose(kmax, "dies before wrapped call"); }
 	else if (mode == 1) { script = vp_choose(4, "session script"); K = 1 + vp_choose(kmax, "server dies before wrapped call"); }
 	else if (mode == 3) { script = vp_choose(4, "session script"); K = 0; J = 1 + vp_choose(jmax, "client dies just before the server's wrapped call"); }
